@@ -117,7 +117,7 @@ def _expand(rows, ti, cr, rr):
 def render_text(fmt, doc, o):
     from verif.gen import htmlfam, odf, ooxml, rtf
     if fmt == "docx":
-        return ooxml.docx(doc)
+        return ooxml.docx(doc, opts=dict(o.get("docx") or {}) or None)
     if fmt == "pptx":
         return ooxml.pptx(doc)
     if fmt in ("odt", "odp"):
@@ -533,6 +533,8 @@ def _shrink_opts(case):
         yield _with_opts(case, dict(o, w={k: v for k, v in o["w"].items() if k != key}))
     for key in sorted(o.get("rtf") or {}):
         yield _with_opts(case, dict(o, rtf={k: v for k, v in o["rtf"].items() if k != key}))
+    for key in sorted(o.get("docx") or {}):
+        yield _with_opts(case, dict(o, docx={k: v for k, v in o["docx"].items() if k != key}))
 
 
 def _remap(o, ti, fr=None, fc=None, drop=False):
@@ -862,6 +864,15 @@ def text_cases(tier, fmt):
                 yield {"u": [["p", g1, "p"]], "o": {"html": v}}
                 for g2 in small:
                     yield {"u": [[g1, g2]], "o": {"html": v}}
+    if fmt == "docx":
+        # every cell's content inside a block-level content control (form tables: w:tc/w:sdt/w:sdtContent/w:p)
+        do = {"cell_sdt": True}
+        for g in (_grid_space(quick, kinds) if not quick else reduced):
+            yield {"u": [[g]], "o": {"docx": do}}
+        for g1 in small:
+            yield {"u": [["p", g1, "p"]], "o": {"docx": do}}
+            for g2 in small:
+                yield {"u": [[g1, g2]], "o": {"docx": do}}
     if fmt == "rtf":
         for ro in ({"row_props": "both"}, {"eol": "\r\n"}, {"eol": "\n"}, {"row_props": "both", "eol": "\r\n"}):
             for g in reduced:
